@@ -126,10 +126,11 @@ def build_dict(gtype, level, U, default_state=False):
     net = {"species": sp, "reactions": rx, "environments": list(BASE["envs"])}
     if "network" in decl:
         net["units"] = decl["network"]
-    if gtype == "grid":
+    if gtype in ("grid", "gridr"):
         b = BASE["grid"]
         space = {"type": "grid", "w": b["w"], "h": b["h"], "d": b["d"], "cell_env": list(b["env"]),
-                 "cell_volume": num(b["vol"], g["space"], DIM["vol"], explicit), "boundary_conditions": dict(b["bc"])}
+                 "cell_volume": num(b["vol"], g["space"], DIM["vol"], explicit),
+                 "boundary_conditions": dict(b["bc"]) if gtype == "grid" else {}}
     else:
         b = BASE["graph"]
         nodes = []
@@ -187,14 +188,18 @@ def params_si(system):
     return out
 
 
-def euler_run(system, U, script_dict=None):
+def euler_run(system, U, script_dict=None, cgmap=None):
     """Euler trajectory in SI (times in s, amounts in molecules), reported by the engine in unit system U."""
     if script_dict is not None:
         script = rdscript_from_dict(script_dict)
     else:
         script = RDScript(system, [0], time_step=DT * fac(U, DIM["time"]), t_max=(NSTEPS - 0.5) * DT * fac(U, DIM["time"]),
                           sampling_policy="on_iteration", units_system=uq.mk_sys(U))
-    traj, nit = eng.run_to_completion(eng.make_engine("euler"), script, max_iter=50)
+    if cgmap is not None:
+        from strengths.simulate import simulate_script
+        traj = simulate_script(script, eng.make_engine("euler"), cgmap=cgmap)
+    else:
+        traj, nit = eng.run_to_completion(eng.make_engine("euler"), script, max_iter=50)
     t = [float(x) for x in uq.si_value(traj.t)]
     d = [float(x) for x in uq.si_value(traj.data)]
     return t, d, (uq.sys_of(traj.t.units), uq.sys_of(traj.data.units), uq.dim_of(traj.t.units), uq.dim_of(traj.data.units))
@@ -276,6 +281,11 @@ def check_case(case):
                 sc = max(abs(x) for x in bf)
                 cmp_lists("%s:%s:rate-of-change" % (level, gtype), None, f_si, bf, out, scale=sc)
             t, d, meta = euler_run(system, U)
+            if case.get("cg"):
+                # the same run through the coarse-graining path with the identity map must give the same physics
+                t2, d2, _ = euler_run(system, U, cgmap=list(range(len(BASE["grid"]["env"]))))
+                cmp_lists("%s:%s:cgmap-identity:trajectory-times" % (level, gtype), None, t2, bt, out)
+                cmp_lists("%s:%s:cgmap-identity:trajectory-data" % (level, gtype), None, d2, bd, out, scale=max(abs(x) for x in bd))
         cmp_lists("%s:%s:trajectory-times" % (level, gtype), None, t, bt, out)
         cmp_lists("%s:%s:trajectory-data" % (level, gtype), None, d, bd, out, scale=max(abs(x) for x in bd))
     except Exception as e:
@@ -293,6 +303,12 @@ def gen_cases(tier):
             for level in levels[gtype]:
                 c = {"gtype": gtype, "level": level, "U": list(U), "rate": (U in rate_set and level != "script")}
                 yield c
+                if gtype == "grid" and level in ("system", "network", "species", "space", "explicit") and U in rate_set:
+                    c4 = dict(c)          # reflecting variant of the grid, also simulated through the coarse-graining path
+                    c4["gtype"] = "gridr"
+                    c4["cg"] = True
+                    c4["rate"] = False
+                    yield c4
                 if level not in ("script", "reaction", "edge"):
                     c3 = dict(c)
                     c3["default_state"] = True      # no explicit state: density x volume
